@@ -7,6 +7,7 @@ package keystore
 // injective encodings) and none of the secrecy, so they serve functional properties only.
 
 import (
+	"bytes"
 	"crypto/elliptic"
 	"errors"
 	"hash"
@@ -49,6 +50,14 @@ func vsOpen(out, box []byte, nonce *[24]byte, key *[32]byte) ([]byte, bool) {
 	}
 	msg := box[16:]
 	tag := vsUFBytesInj("boxmac", 16, key[:], nonce[:], msg)
+	// decided outright where the path condition decides it (keeps the "opened although it cannot" continuation, which no
+	// model satisfies, out of the run); otherwise the comparison stays symbolic
+	if vsProvablyEqual(tag, box[:16]) {
+		return append(out, msg...), true
+	}
+	if vsProvablyDifferent(tag, box[:16]) {
+		return nil, false
+	}
 	for i := 0; i < 16; i++ {
 		if tag[i] != box[i] {
 			return nil, false
@@ -131,8 +140,30 @@ func vsVerify(sig *pocec.Signature, h []byte, pub *pocec.PublicKey) bool {
 // --- text encodings: bijective stand-ins --------------------------------------------------------------------------
 func vsB58Encode(b []byte) string { return string(b) }
 func vsB58Decode(s string) []byte { return []byte(s) }
+// Account identifiers: an injective function of the account public key, realised as a registry that hands out concrete
+// names ("ac0", "ac1", ...) so that bucket navigation in the store model stays concrete. A key provably equal to a
+// registered one (syntactically or by a solver proof under the path condition) gets that name; otherwise it is ASSUMED
+// different from the registered ones (A1: account keys derived from different seeds do not collide) and gets a new name.
+type vsAcctEnt struct {
+	pk []byte
+	id string
+}
+
+var vsAcctReg []vsAcctEnt
+
 func vsPubKeyToAccountID(pk *pocec.PublicKey) (string, error) {
-	return "ac" + string(vsHash160(vsSerC(pk))), nil
+	b := vsSerC(pk)
+	for _, r := range vsAcctReg {
+		if vsProvablyEqual(r.pk, b) {
+			return r.id, nil
+		}
+	}
+	for _, r := range vsAcctReg {
+		vsAssume(!bytes.Equal(r.pk, b))
+	}
+	id := "ac" + string(rune('0'+len(vsAcctReg)))
+	vsAcctReg = append(vsAcctReg, vsAcctEnt{b, id})
+	return id, nil
 }
 func vsNewAddressPubKeyHash(h []byte, net *config.Params) (*massutil.AddressPubKeyHash, error) {
 	return massutil.NewAddressPubKeyHash(h, &config.Params{})
